@@ -88,6 +88,18 @@ fn specs(unit: &Value) -> Vec<(bool, RpcSpec, Option<String>)> {
             };
             s = s.route(odd_route);
             let other = RpcSpec::new("other").route("/o").header("h-o", "o").body(pattern_body(5, 999));
+            if variant >= 8 {
+                // several requests on ONE route whose header maps are rearrangements of each other:
+                // the same names with the values exchanged, and one value repeated under two names
+                let ab = unit["ab"].as_bool().unwrap();
+                let mk = |id: &str, from: &str, to: &str, n: u64| RpcSpec::new(id).route("/same").header("h-from", from).header("h-to", to).body(pattern_body(n, 20 + n as usize));
+                let mk2 = |id: &str, v: &str, n: u64| RpcSpec::new(id).route("/same").header("h-request-id", v).header("h-trace-id", v).body(pattern_body(n, 20 + n as usize));
+                return if variant == 8 {
+                    vec![(ab, mk("s1", "alice", "bob", 1), None), (ab, mk("s2", "bob", "alice", 2), None), (!ab, mk("s3", "bob", "alice", 3), None), (ab, mk("s4", "alice", "bob", 4), None)]
+                } else {
+                    vec![(ab, mk2("t1", "id-1", 1), None), (ab, mk2("t2", "id-2", 2), None), (!ab, mk2("t3", "id-3", 3), None), (ab, mk2("t4", "id-1", 4), None)]
+                };
+            }
             vec![(unit["ab"].as_bool().unwrap(), s, None), (!unit["ab"].as_bool().unwrap(), other, None)]
         }
         k => panic!("unknown unit kind {k}"),
@@ -420,7 +432,7 @@ impl Check for C02 {
         for mode in FAIL_MODES {
             u.push(json!({"kind":"fail","mode":mode,"bound":tier.pick(1,2),"fate_budget":tier.pick(40,80)}));
         }
-        for variant in 0..8 {
+        for variant in 0..10 {
             for ab in [true, false] {
                 u.push(json!({"kind":"hdr","variant":variant,"ab":ab,"bound":tier.pick(0,1),"fate_budget":tier.pick(0,200)}));
             }
